@@ -413,10 +413,16 @@ def run(ctx, only=None):
 
     rng = ctx.rng
     cases = []
+    # first calls of the three cached gufuncs, cpu targets first: with several check processes running at once the
+    # first call of the cpu-target `_sample_without_replacement` AFTER calls of the parallel-target `_probvec` crashed
+    # inside numba's gufunc dispatch (null function pointer; not reproducible in a single process) — observed, avoided
+    _sample_without_replacement(3, np.array([0.5]))
+    _probvec_cpu(np.array([[0.5]]), np.empty((1, 2)))
+    _probvec_parallel(np.array([[0.5]]), np.empty((1, 2)))
     # the guvectorized `parallel` target is still exercised, on two worker threads: with the default (one per core) every
     # call costs ~0.1 s of thread start-up when the machine is busy, which dominated the run
     import numba
-    pass  # numba.set_num_threads(min(2, numba.config.NUMBA_NUM_THREADS))
+    numba.set_num_threads(min(2, numba.config.NUMBA_NUM_THREADS))
 
     # -- bookkeeping for replays: every spec failure carries the case function, its arguments and the complete
     #    recorded random stream, so that `./check C18 --replay <file>` re-runs exactly that call on planted draws
@@ -516,11 +522,17 @@ def run(ctx, only=None):
         bit-identical to the first as it was before the edits, and must share no memory with the first, with any
         earlier product of this process or with module-level arrays.  Returns the second generator and the second
         product; all the definition oracles and the model correspondence of the case then judge the SECOND product."""
+        info = {"generator": name}
+        try:        # the arguments of the call = the free variables of the closure
+            info["arguments"] = {nm: repr(c.cell_contents)[:80] for nm, c in zip(make.__code__.co_freevars, make.__closure__ or ())
+                                 if not callable(c.cell_contents)}
+        except Exception:
+            pass
         obj1 = make(rs1) if rs1 is not None else make()
         arrs1 = arrays_of(obj1)
         shared = products.shared_with_earlier(arrs1)
         if shared:
-            spec_fail("history_shared_memory", "%s: the product shares memory with %s" % (name, shared), {"generator": name})
+            spec_fail("history_shared_memory", "%s: the product shares memory with %s" % (name, shared), info)
         snap = canon(obj1)
         products.add(arrs1, name + " (earlier product)")
         edits = mutate(obj1)
@@ -534,11 +546,11 @@ def run(ctx, only=None):
         shared = products.shared_with_earlier(arrs2)
         if shared:
             spec_fail("history_shared_memory", "%s: after editing an earlier product, the next product shares memory "
-                      "with %s" % (name, shared), {"generator": name})
+                      "with %s" % (name, shared), info)
         if canon(obj2) != snap:
             spec_fail("history_not_reproducible", "%s: generate, edit the product in place, generate again with the same "
                       "arguments and stream -> the second product differs from the first one as generated" % name,
-                      {"generator": name})
+                      info)
         products.add(arrs2, name + " (earlier product)")
         keep(name, obj2, snap)
         return rs2, obj2
